@@ -100,6 +100,72 @@ end
 /-- `struct_field_info` -/
 def structFieldInfo (fs : List LTy) : Option Info := (layoutList fs).map fieldInfoOf
 
+/-! ### generated JS fragments that carry the layout (tool/src/js/gen.rs `generate_fields`, converter.rs) -/
+
+/-- `ForcePaddingStatus` -/
+inductive Force where
+  | noForce | force | passThrough
+  deriving Repr, DecidableEq
+
+def isStructTy : LTy → Bool
+  | .struct _ => true
+  | _ => false
+
+def atLeast3 : SC → Bool
+  | .scalars n => decide (3 ≤ n)
+  | _ => false
+
+/-- the `force_padding` decision of `generate_fields`: (scalar count of the field, of the whole struct, is the
+    field a struct); the arms of the Rust `match` in order -/
+def forcePadding (field whole : SC) (fieldIsStruct : Bool) : Force :=
+  if field = .zst ∨ field = .scalars 1 then .noForce           -- there's no padding needed
+  else if fieldIsStruct = false then .noForce                   -- non-structs don't care
+  else if field = .scalars 2 ∧ whole = .scalars 2 then .passThrough
+  else if field = .scalars 2 ∧ atLeast3 whole = true then .force
+  else .noForce
+
+def Force.suffix : Force → String
+  | .noForce => "" | .force => ", true" | .passThrough => ", forcePadding"
+
+def widthName (w : Nat) : String := "i" ++ toString (w * 8)
+
+/-- fragments of the struct's `.mjs`, in the order they appear in `_intoFFI` (input structs only), then
+    `_writeToArrayBuffer` (input structs only), then `_fromFFI`; field `i` is called `f{i}` -/
+def jsFrags (fs : List LTy) (isOut : Bool) : Option (List String) :=
+  match structFieldInfo fs, layoutList fs with
+  | some info, some ls =>
+    let idx := List.range fs.length
+    let inner : Nat → Option (Nat × Nat) := fun i =>
+      match fs[i]? with
+      | some (.opt t) => (layoutOf t).map fun l => (l.1, l.2.1)
+      | _ => none
+    let into : List String := idx.flatMap fun i =>
+      let fl := info.fields.getD i ⟨0, 0, 1, .zst⟩
+      let fsc := (ls.getD i (0, 1, .zst)).2.2
+      let call : List String :=
+        match fs[i]? with
+        | some (.struct _) => ["this.#f" ++ toString i ++ ")._intoFFI(functionCleanupArena, {}" ++ (forcePadding fsc info.sc true).suffix ++ ")"]
+        | some (.opt _) => match inner i with
+          | some (sz, al) => ["diplomatRuntime.optionToArgsForCalling(this.#f" ++ toString i ++ ", " ++ toString sz ++ ", " ++ toString al ++ ","]
+          | none => []
+        | _ => []
+      let pad : List String :=
+        if fl.paddingCount = 0 then []
+        else if info.sc = .scalars 2 then ["...diplomatRuntime.maybePaddingFields(forcePadding, " ++ toString fl.paddingCount ++ " /* x " ++ widthName fl.paddingWidth ++ " */)"]
+        else ["/* [" ++ toString fl.paddingCount ++ " x " ++ widthName fl.paddingWidth ++ "] padding */"]
+      call ++ pad
+    let write : List String := idx.flatMap fun i =>
+      let fl := info.fields.getD i ⟨0, 0, 1, .zst⟩
+      match inner i with
+      | some (sz, al) => ["diplomatRuntime.writeOptionToArrayBuffer(arrayBuffer, offset + " ++ toString fl.offset ++ ", this.#f" ++ toString i ++ ", " ++ toString sz ++ ", " ++ toString al ++ ","]
+      | none => []
+    let read : List String := idx.flatMap fun i =>
+      match inner i with
+      | some (sz, _) => ["diplomatRuntime.readOption(wasm, f" ++ toString i ++ "Deref, " ++ toString sz ++ ","]
+      | none => []
+    some ((if isOut then [] else into ++ write) ++ read)
+  | _, _ => none
+
 /-! ### driver -/
 
 partial def parseLTy : Sexp → Option LTy
@@ -122,6 +188,13 @@ def runLine (line : String) : String :=
       | none => "panic"
       | some i => s!"size={i.size} align={i.align} sc={showSC i.sc} fields=" ++
           ",".intercalate (i.fields.map fun f => s!"{f.offset}:{f.paddingCount}:{f.paddingWidth}:{showSC f.sc}")
+    | none => "bad-case"
+  | some (.list (.atom "jsfrags" :: .atom out :: fs)) =>
+    match optMapM parseLTy fs with
+    | some fs =>
+      match jsFrags fs (out == "out") with
+      | none => "panic"
+      | some l => " ;; ".intercalate l
     | none => "bad-case"
   | _ => "bad-case"
 
